@@ -81,6 +81,21 @@ def structural(ctx, rng, count, all32):
 
 
 def audit_instance(ctx, rng, inst, settings, direction=None):
+    """the audit proper runs in a forked child (it calls the real Problem.solve; ECOS may crash on degenerate data)"""
+    log = common.CtxLog(getattr(ctx, 'seed', 0))
+    kind, res = common.forked(lambda: (_audit_instance(log, rng, inst, settings, direction), log.log), timeout=180)
+    if kind == 'exception':
+        raise RuntimeError('audit raised in the child: %s' % res)
+    if kind != 'ok':
+        ctx.incon('audit: solver %s' % kind)
+        return None
+    why, entries = res
+    log.log = entries
+    log.replay_into(ctx)
+    return why
+
+
+def _audit_instance(ctx, rng, inst, settings, direction=None):
     """optimise a linear function of the user variables s.t. c(w) in SAGE(alpha, X), |w| <= 3; check the exposed certificate.
     Returns violation or None"""
     import sageopt.coniclifts as cl
